@@ -291,8 +291,25 @@ func (f *fakeSub) deliver(ctx context.Context, h *vh.Header) error {
 // opens the window between "a header is being written" and "it is written" for other goroutines.
 type slowAppendStore struct {
 	*store.Store[*vh.Header]
-	mu    sync.Mutex
-	delay time.Duration
+	mu        sync.Mutex
+	delay     time.Duration
+	headDelay time.Duration // Head() takes this much virtual time (a reader caught between two reads)
+}
+
+func (s *slowAppendStore) setHeadDelay(d time.Duration) {
+	s.mu.Lock()
+	s.headDelay = d
+	s.mu.Unlock()
+}
+
+func (s *slowAppendStore) Head(ctx context.Context, opts ...header.HeadOption[*vh.Header]) (*vh.Header, error) {
+	s.mu.Lock()
+	d := s.headDelay
+	s.mu.Unlock()
+	if d > 0 {
+		time.Sleep(d)
+	}
+	return s.Store.Head(ctx, opts...)
 }
 
 func (s *slowAppendStore) setDelay(d time.Duration) {
